@@ -478,7 +478,12 @@ static nng_err
 req0_ctx_set_resend_time(void *arg, const void *buf, size_t sz, nni_opt_type t)
 {
 	req0_ctx *ctx = arg;
-	return (nni_copyin_ms(&ctx->retry, buf, sz, t));
+	nng_err   rv;
+	// (under the socket lock: the send and receive paths read it)
+	nni_mtx_lock(&ctx->sock->mtx);
+	rv = nni_copyin_ms(&ctx->retry, buf, sz, t);
+	nni_mtx_unlock(&ctx->sock->mtx);
+	return (rv);
 }
 
 static nng_err
